@@ -27,11 +27,12 @@ VARIABLES l,          \* next line of Trace
           viol,       \* flags raised: <<code, trace id, line>>
           marks,      \* antecedents met: <<property, trace id>>  (non-triviality evidence)
           hOn, hVars, \* C13: the program holds one counted method atom; the variables occurring in it
-          hUsed, hLimit \* real evaluations of it since the last invalidation / how many are admissible
+          hUsed, hLimit, \* real evaluations of it since the last invalidation / how many are admissible
+          hFresh      \* the action list being executed holds an invalidation: the usage of the epoch it leaves is unknown
 
 vars == <<l, tid, mode, rules, maxc, flag, facts, retracted, complete, cancelled, cyc, evald, cands, execd,
-          prevEvald, prevCands, pendErr, lastExec, done, viol, marks, hOn, hVars, hUsed, hLimit>>
-hvars == <<hOn, hVars, hUsed, hLimit>>
+          prevEvald, prevCands, pendErr, lastExec, done, viol, marks, hOn, hVars, hUsed, hLimit, hFresh>>
+hvars == <<hOn, hVars, hUsed, hLimit, hFresh>>
 
 T == Trace[l]
 Is(e) == l <= Len(Trace) /\ T.ev = e /\ l' = l + 1
@@ -90,7 +91,7 @@ Init == /\ l = 1 /\ tid = -1 /\ mode = "none" /\ rules = <<>> /\ maxc = 0 /\ fla
         /\ facts = <<>> /\ retracted = {} /\ complete = FALSE /\ cancelled = FALSE /\ cyc = 0
         /\ evald = {} /\ cands = {} /\ execd = FALSE /\ prevEvald = {} /\ prevCands = {}
         /\ pendErr = "" /\ lastExec = "" /\ done = TRUE /\ viol = {} /\ marks = {}
-        /\ hOn = FALSE /\ hVars = {} /\ hUsed = 0 /\ hLimit = 1
+        /\ hOn = FALSE /\ hVars = {} /\ hUsed = 0 /\ hLimit = 1 /\ hFresh = FALSE
 
 Begin == /\ Is("begin")
          /\ tid' = T.id /\ mode' = T.mode /\ rules' = T.rules /\ maxc' = T.max /\ flag' = T.flag
@@ -98,7 +99,7 @@ Begin == /\ Is("begin")
          /\ evald' = {} /\ cands' = {} /\ execd' = FALSE /\ prevEvald' = {} /\ prevCands' = {}
          /\ pendErr' = "" /\ lastExec' = "" /\ done' = FALSE
          /\ marks' = IF T.call > 0 THEN marks \cup {<<"C08", T.id>>} ELSE marks
-         /\ hOn' = (T.counted.k = "call") /\ hVars' = VarsIn(T.counted) /\ hUsed' = 0 /\ hLimit' = 1
+         /\ hOn' = (T.counted.k = "call") /\ hVars' = VarsIn(T.counted) /\ hUsed' = 0 /\ hLimit' = 1 /\ hFresh' = FALSE
          /\ UNCHANGED viol
 
 \* a knowledge base that could not be built / instantiated / stored / loaded (C09, C12, C17 territory)
@@ -119,8 +120,10 @@ CycleEv ==
   /\ facts' = T.facts        \* resynchronise
   /\ prevEvald' = evald /\ prevCands' = cands
   /\ evald' = {} /\ cands' = {} /\ execd' = FALSE
-  /\ marks' = IF hOn /\ hUsed >= 1 /\ cyc >= 1 THEN marks \cup {<<"C13", tid>>} ELSE marks
-  /\ UNCHANGED <<tid, mode, rules, maxc, flag, retracted, complete, cancelled, cyc, pendErr, lastExec, done, hvars>>
+  /\ marks' = IF hOn /\ hUsed >= 1 /\ ~hFresh /\ cyc >= 1 THEN marks \cup {<<"C13", tid>>} ELSE marks
+  \* the calls of an invalidating action list may have come before the invalidation: the new epoch counts from 0
+  /\ IF hFresh THEN hUsed' = 0 /\ hLimit' = 1 /\ hFresh' = FALSE ELSE UNCHANGED <<hUsed, hLimit, hFresh>>
+  /\ UNCHANGED <<tid, mode, rules, maxc, flag, retracted, complete, cancelled, cyc, pendErr, lastExec, done, hOn, hVars>>
 
 EvalEv ==
   /\ Is("eval")
@@ -176,8 +179,8 @@ ExecEv ==
   /\ LET k == IF hOn /\ T.r \in Names /\ ~cancelled
                THEN Invalidations(rules[T.r].a, 1, [f |-> facts, ret |-> retracted, comp |-> complete, err |-> FALSE])
                ELSE 0
-     IN IF k > 0 THEN hUsed' = 0 /\ hLimit' = k + (IF hUsed = 0 THEN 1 ELSE 0)
-                 ELSE UNCHANGED <<hUsed, hLimit>>
+     IN IF k > 0 THEN hUsed' = 0 /\ hLimit' = k + (IF hUsed = 0 THEN 1 ELSE 0) /\ hFresh' = TRUE
+                 ELSE UNCHANGED <<hUsed, hLimit, hFresh>>
   /\ UNCHANGED <<tid, mode, rules, maxc, flag, cancelled, evald, cands, prevEvald, prevCands, done, hOn, hVars>>
 
 \* a real invocation of an instrumented fact method (an atom served from the memo produces no event)
@@ -187,7 +190,7 @@ CallEv == /\ Is("call")
                   /\ Check(hUsed + 1 <= hLimit, "C13-evaluated-again-without-invalidation")
              ELSE UNCHANGED <<hUsed, viol>>
           /\ UNCHANGED <<tid, mode, rules, maxc, flag, facts, retracted, complete, cancelled, cyc, evald, cands,
-                         execd, prevEvald, prevCands, pendErr, lastExec, done, marks, hOn, hVars, hLimit>>
+                         execd, prevEvald, prevCands, pendErr, lastExec, done, marks, hOn, hVars, hLimit, hFresh>>
 
 CancelEv == /\ Is("cancel")
             /\ cancelled' = TRUE
@@ -211,10 +214,11 @@ RetExec ==
        <<(e = "nil" /\ flag /\ ~complete /\ ~cancelled) => ~anyBroken, "C14-evaluation-error-not-returned">>,
        <<e = "ctx" => cancelled, "C15-context-error-without-cancel">>,
        <<(cancelled /\ e = "nil") => (complete \/ Quiescent), "C15-nil-after-cancel-with-work-left">>,
-       <<(cancelled /\ e = "max") => FALSE, "C15-max-after-cancel">>,
        <<(e = "nil" /\ ~cancelled) => (complete \/ Quiescent), "C02-returned-with-satisfied-rule">>,
        <<(e = "nil" /\ complete /\ ~cancelled) => execd, "C10-complete-without-exec">>,
-       <<(e = "max" /\ ~cancelled) => (~complete /\ cyc = maxc /\ evald = Active /\ \E r \in Active : Truth(r)), "C06-cycle-limit-error-unjustified">>,
+       \* (a cancellation that arrives after the engine's last look at the context races with the natural end
+       \*  of the run: nil at quiescence and the cycle-limit error are then still truthful, no action was started)
+       <<e = "max" => (~complete /\ cyc = maxc /\ evald = Active /\ \E r \in Active : Truth(r)), "C06-cycle-limit-error-unjustified">>,
        <<e \in {"nil", "max", "acterr", "evalerr", "ctx", "panic", "hang"}
             \/ (cancelled /\ e = "ctxeval"), "C06-unknown-error-class">> >>)
 
